@@ -17,6 +17,7 @@ import (
 	"time"
 
 	"github.com/go-kid/ioc/app"
+	"github.com/go-kid/ioc/component_definition"
 	"github.com/go-kid/ioc/configure"
 	"github.com/go-kid/ioc/configure/binder"
 	"github.com/go-kid/ioc/container/support"
@@ -41,6 +42,7 @@ type AScenario struct {
 	InitFail   int     `json:"initFail"`
 	Seed       int64   `json:"seed"`
 	CloseOrder []int   `json:"closeOrder"`
+	Cycle      bool    `json:"cycle"` // k000 <-> k001: the early reference of k000 is requested while k001 is populated
 }
 
 // TLC integers are 32 bit: the scenario encodes the extremes symbolically and the harness maps them
@@ -124,6 +126,20 @@ func compIdx(name string) int {
 func (x *ppU) PostProcessBeforeInitialization(c any, name string) (any, error) {
 	if k := compIdx(name); k != 0 {
 		x.l.emit("before", map[string]any{"c": k, "p": x.i})
+	}
+	return c, nil
+}
+// every user processor is a "smart" one too: it is asked for the early reference of a component that closes a cycle
+func (x *ppU) PostProcessBeforeInstantiation(m *component_definition.Meta, name string) (any, error) {
+	return nil, nil
+}
+func (x *ppU) PostProcessAfterInstantiation(c any, name string) (bool, error) { return false, nil }
+func (x *ppU) PostProcessProperties(ps []*component_definition.Property, c any, name string) ([]*component_definition.Property, error) {
+	return nil, nil
+}
+func (x *ppU) GetEarlyBeanReference(c any, name string) (any, error) {
+	if name == "k000" {
+		x.l.emit("early", map[string]any{"p": x.i})
 	}
 	return c, nil
 }
@@ -216,6 +232,19 @@ func (x *closerC) Close() error {
 	return nil
 }
 
+// ---- the cycle opener (not one of the K components: its name sorts before k001 and carries index 0) and the first
+// component when it closes the cycle
+type openerC struct {
+	Peer *plainCy `wire:""`
+}
+
+func (*openerC) Naming() string { return "k000" }
+
+type plainCy struct {
+	plainC
+	Back *openerC `wire:""`
+}
+
 // ---- plain components
 type plainC struct {
 	l    *alog
@@ -287,7 +316,13 @@ func runAppScenario(sc *AScenario) []map[string]any {
 		comps = append(comps, closers[j])
 	}
 	for c := 1; c <= sc.Comps; c++ {
-		comps = append(comps, &plainC{l, c, sc.InitFail == c, fmt.Sprintf("k%03d", c)})
+		pc := plainC{l, c, sc.InitFail == c, fmt.Sprintf("k%03d", c)}
+		if c == 1 && sc.Cycle {
+			comps = append(comps, &plainCy{plainC: pc}, &openerC{})
+			continue
+		}
+		x := pc
+		comps = append(comps, &x)
 	}
 	rnd.Shuffle(len(comps), func(a, b int) { comps[a], comps[b] = comps[b], comps[a] })
 	cfg := configure.NewConfigure()
